@@ -4,6 +4,7 @@ import os
 import re
 
 from ..core.engine import Res
+from ..core.facts import AnchorMissing
 from ..core.rules import (who_reads_discr, wire, must_pass, errset, guard,
                           checked_calls)
 from ..core.fa_rule import fa_for
@@ -86,6 +87,45 @@ def run(ctx):
                   lambda P_: wire(P_, NC, r'ProposalApplier::apply_tree_changes$', 3, r'^group_context_extensions_proposal\.proposal$', which='any'), floor=2)
         ctx.check('WIRE', 'when the extensions proposal is dropped, the rest is re-applied in the CURRENT context',
                   lambda P_: wire(P_, NC, r'ProposalApplier::apply_tree_changes$', 3, r'^self\.original_context\.extensions$', which='any'), floor=2)
+    # the committer may DROP a by-reference Update that fails tree-level validation (filter mode): whatever was changed for that
+    # update has to be undone, or the committer's tree differs from the one every receiver derives. The leaf is put back by the
+    # rollback arm; the direct path cannot be put back, so it must be blanked only once no update can be rejected any more.
+    def blank_after_validation(P_):
+        from ..core.facts import callee_name as cn_
+        fn = P_.fn('TreeKemPublic::batch_edit')
+        body = P_.body(fn)
+        r = Res()
+        closures = {}
+        for k in P_.closures_of(fn['key']):
+            b2 = P_.body(P_.fns[k])
+            if b2.calls_named(r'NodeVec::blank_direct_path$'):
+                closures[k] = True
+        sites = []
+        for bi, t in body.calls():
+            if re.search(r'NodeVec::blank_direct_path$', cn_(t)):
+                sites.append(bi)
+                continue
+            for a in t['args']:
+                if a['k'] in ('copy', 'move') and not a['pl']['p']:
+                    for d in body.defs.get(a['pl']['l'], []):
+                        if d[0] == 'st' and d[1]['k'] == 'agg' and d[1]['what'].startswith('closure:') and d[1]['what'][8:] in closures:
+                            sites.append(bi)
+        if not sites:
+            raise AnchorMissing('batch_edit no longer blanks the direct path of the updated leaves')
+        val = [bi for bi, t in body.calls_named(r'(^|::)index_insert$')]
+        if not val:
+            raise AnchorMissing('batch_edit no longer validates updates through index_insert')
+        for s_ in sites:
+            r.site('TreeKemPublic::batch_edit @%s blanks a direct path' % body.ln(s_))
+            nxt = body.term(s_)['t']
+            rc = body.reach([nxt]) if nxt is not None and nxt >= 0 else set()
+            late = [v for v in val if v in rc]
+            if late:
+                r.bad('blank-before-validation', 'in `TreeKemPublic::batch_edit` the direct path of an updating leaf is blanked before the update is validated '
+                      '(index_insert can still reject it afterwards): a dropped update leaves blank parents behind in the committer\'s tree only',
+                      where=[body.ln(s_)] + [body.ln(v) for v in late[:2]])
+        return r
+    ctx.check('ORDER', 'batch_edit: direct paths of updaters are blanked only after every update was accepted or rolled back', blank_after_validation, floor=1)
     # path requirement computed by one function on both sides from the applied proposals
     for fq in ('Group::commit_internal', 'MessageProcessor::process_commit'):
         ctx.check('WIRE', 'path requirement from the applied proposals: ' + fq,
